@@ -69,10 +69,7 @@ def main():
     for d in demos:
         shutil.move(d, d + ".aside")
     ENV["VERIF_REPO"] = wt
-    evdir = os.path.join(VERIF, "evidence")
-    keep = os.path.join(VERIF, ".evidence-keep")
-    shutil.rmtree(keep, ignore_errors=True)
-    shutil.copytree(evdir, keep)
+    ENV["VERIF_OUT_DIR"] = "/tmp/verif-tool-out"
     meta["checks"] = {}
     try:
         for cid in checks:
@@ -91,9 +88,7 @@ def main():
     finally:
         for d in demos:
             shutil.move(d + ".aside", d)
-        shutil.rmtree(os.path.join(VERIF, "replays"), ignore_errors=True)
-        shutil.rmtree(evdir, ignore_errors=True)  # evidence written against a seeded tree is not evidence
-        shutil.move(keep, evdir)
+        shutil.rmtree("/tmp/verif-tool-out", ignore_errors=True)
     json.dump(meta, open(os.path.join(dst, "meta.json"), "w"), indent=1)
     return 0
 
